@@ -131,6 +131,29 @@ def Op.setPatch (o : Op) (side name : String) : Option Op :=
   else if side = "top" then some { o with topPatch := some name }
   else (indexFromSide side).map (fun i => { o with sidePatches := o.sidePatches.set i (some name) })
 
+/-- `Operation.set_patch([side, …], name)`: the sides one after the other -/
+def Op.setPatchList (o : Op) (sides : List String) (name : String) : Option Op :=
+  sides.foldlM (fun o s => o.setPatch s name) o
+
+/-- the patch name stored for a side (what the assembled block shows on that side's quad) -/
+def Op.patchOf (o : Op) (side : String) : Option String :=
+  if side = "bottom" then o.bottomPatch
+  else if side = "top" then o.topPatch
+  else match indexFromSide side with
+    | some i => o.sidePatches.getD i none
+    | none => none
+
+/-- `Face.add_edge(i, data)` / `Operation.add_side_edge(i, data)`: the slot holds the new datum only -/
+def Op.setEdgeSlot (o : Op) (s : Slot) (ls : List String) : Op :=
+  match s with
+  | .bottom i => { o with bottomEdges := o.bottomEdges.set i ls }
+  | .top i => { o with topEdges := o.topEdges.set i ls }
+  | .side i => { o with sideEdges := o.sideEdges.set i ls }
+
+/-- `Face.remove_edges(corners)` on the bottom or the top face: `add_edge(corner, None)` for each listed corner -/
+def Op.removeEdges (o : Op) (bottom : Bool) (cs : List Nat) : Op :=
+  cs.foldl (fun o c => o.setEdgeSlot (if bottom then .bottom c else .top c) []) o
+
 def Op.projectFace (o : Op) (bottom : Bool) (l : String) (edges points : Bool) : Op :=
   let o := if bottom then { o with bottomProj := some l } else { o with topProj := some l }
   let o := if edges then
@@ -237,6 +260,24 @@ def applyCall (o : Op) (call : String) : Option Op :=
       let c ← c.toNat?
       if c < 8 then some (o.projectCorner c l) else none
   | ["nface", _viewer] => some o   -- `get_normal_face` only reads the operation
+  | ["patchL", sides, name] =>
+      o.setPatchList (if sides = "-" then [] else sides.splitOn "+") name
+  | ["redges", face, cs] => do
+      -- `cs`: "all" (argument omitted), "-" (empty list) or corner numbers joined by "+"
+      let cs ← if cs = "all" then some [0, 1, 2, 3] else if cs = "-" then some [] else (cs.splitOn "+").mapM (·.toNat?)
+      if cs.all (· < 4) then
+        if face = "bottom" then some (o.removeEdges true cs)
+        else if face = "top" then some (o.removeEdges false cs) else none
+      else none
+  | ["sameproj", s1, s2, l] => do
+      -- one `Project` object put on two edges by corner numbers
+      let slot (s : String) : Option Slot := do
+        let i ← (s.drop 1).toString.toNat?
+        if i < 4 then
+          match s.take 1 |>.toString with
+          | "b" => some (.bottom i) | "t" => some (.top i) | "s" => some (.side i) | _ => none
+        else none
+      some ((o.setEdgeSlot (← slot s1) [l]).setEdgeSlot (← slot s2) [l])
   | _ => none
 
 /-- `c10.addr call;call;…` → the view, or `reject` when a call is rejected. -/
@@ -267,8 +308,19 @@ def handleFace (args : List String) : Option String :=
       some (showNatList r.pts ++ " " ++ showNatList r.edges)
   | _ => none
 
+/-- `c10.normal p0 p1 p2 p3` → the raw (unnormalised) normal of `Face.normal` as exact rationals -/
+def handleNormal (args : List String) : Option String :=
+  match args with
+  | [a, b, c, d] => do
+      let p ← [a, b, c, d].mapM parseV3?
+      match p with
+      | [p0, p1, p2, p3] => let n := normalRaw p0 p1 p2 p3; some s!"{showRat n.x} {showRat n.y} {showRat n.z}"
+      | _ => none
+  | _ => none
+
 def handle (op : String) (args : List String) : Option String :=
   match op with
+  | "c10.normal" => handleNormal args
   | "c10.addr" => handleAddr args
   | "c10.face" => handleFace args
   | _ => none
